@@ -575,14 +575,27 @@ def _casing_matcher(cls, c, o):
     if cls == "casing-titlecase":
         return any(unicodedata.category(ch) == "Lt" for ch in text)
     if cls == "casing-camel-resegmentation":
-        # only camelcase / pascalcase (outs 0..3) may differ, and the first pass must show a capital that follows
-        # another capital or a non-alphanumeric char (a boundary that only the removed separator marked)
+        # only camelcase / pascalcase (outs 0..3) may differ, and the first pass must show a capital whose predecessor
+        # is neither a lowercase letter nor a digit (another capital, punctuation, a caseless letter): a boundary
+        # that only the removed separator marked
         outs = [_out_text(o, i) for i in range(10)]
         if None in outs or any(outs[i] != outs[i + 1] for i in (4, 6, 8)):
             return False
         bad = [i for i in (0, 2) if outs[i] != outs[i + 1]]
-        base = [[ch for ch in t if not unicodedata.combining(ch)] for t in outs]
-        return bool(bad) and all(any((x.isupper() or not x.isalnum()) and y.isupper() for x, y in zip(base[i], base[i][1:])) for i in bad)
+        def weak_capital(t):
+            # graphemes approximated as base char + following combining marks
+            gs = []
+            for ch in t:
+                if unicodedata.combining(ch) and gs:
+                    gs[-1] = (gs[-1][0], True)
+                else:
+                    gs.append((ch, False))
+            for (x, xm), (y, _) in zip(gs, gs[1:]):
+                strong = x.islower() or (x.isdigit() and x.isascii() and not xm)
+                if y.isupper() and not strong:
+                    return True
+            return False
+        return bool(bad) and all(weak_capital(outs[i]) for i in bad)
     return False
 
 
